@@ -88,6 +88,11 @@ pub enum Op {
     Round { node: u16, mask: u8 },
     /// Syn, Deliver, Deliver, Deliver without interference.
     Handshake { a: u16, b: u16 },
+    /// `a` sends a SYN to `b` and `b` processes it at once; the SYN-ACK stays in flight.
+    SynHold { a: u16, b: u16 },
+    /// External catch-up: `node` fetches `peer`'s copy of `member` (entries incl. tombstones, max
+    /// version, watermark) and feeds it to `reset_node_state_if_update`, as an application would.
+    CatchUp { node: u16, peer: u16, member: u16 },
 }
 
 #[derive(Clone, Debug, PartialEq, Serialize, Deserialize)]
@@ -188,6 +193,7 @@ struct CaseFlags {
     reset_messages: u32,
     multi_reset_message: bool,
     narrow_no_reset: bool,
+    catch_up: bool,
 }
 
 pub struct World<'a> {
@@ -464,7 +470,85 @@ impl<'a> World<'a> {
                     }
                 }
             }
+            Op::SynHold { a, b } => {
+                if let (Some(a), Some(b)) = (self.pick_running(a), self.pick_running(b)) {
+                    if a != b && self.links[a][b] {
+                        let mark = self.seq;
+                        self.syn(a, b)?;
+                        if let Some(pos) = self.inflight.iter().position(|d| d.seq > mark && d.seq == self.seq) {
+                            let dg = self.inflight.remove(pos);
+                            self.deliver(dg)?;
+                        }
+                    }
+                }
+            }
+            Op::CatchUp { node, peer, member } => {
+                if let (Some(n), Some(p)) = (self.pick_running(node), self.pick_running(peer)) {
+                    if n != p {
+                        self.catch_up(n, p, member)?;
+                    }
+                }
+            }
         }
+        Ok(())
+    }
+
+    fn catch_up(&mut self, n: usize, p: usize, member_sel: u16) -> S<()> {
+        let mon = self.mon;
+        let peer = self.nodes[p].as_ref().unwrap();
+        let members: Vec<ChitchatId> = peer.chitchat.node_states().keys().cloned().collect();
+        if members.is_empty() {
+            return Ok(());
+        }
+        let member = members[pick_idx(member_sel, members.len())].clone();
+        let Some(src) = peer.chitchat.node_state(&member) else { return Ok(()) };
+        let kvs: Vec<(String, chitchat::VersionedValue)> = src.key_values_including_deleted().map(|(k, vv)| (k.to_string(), vv.clone())).collect();
+        let (max, gc) = (src.max_version(), src.last_gc_version());
+        let wid = WId::from_real(&member);
+        let peer_taints: Vec<(String, u64)> = self.taints.iter().filter(|(s, w, _, _)| *s == p && *w == wid).map(|(_, _, k, v)| (k.clone(), *v)).collect();
+        let node = self.nodes[n].as_mut().unwrap();
+        let is_self = node.id == member;
+        let pre_self = if is_self { node.chitchat.node_state(&member).map(copy_view) } else { None };
+        let pre_known = node.chitchat.node_state(&member).is_some();
+        if let Err(pn) = guard(|| node.chitchat.reset_node_state_if_update(&member, kvs.into_iter(), max, gc)) {
+            // "never panics" is C18's statement; in the other checks the case cannot be evaluated.
+            return Err(StepErr::Discard(format!("catch-up panicked: {}", pn.signature())));
+        }
+        self.flags.catch_up = true;
+        let node = self.nodes[n].as_ref().unwrap();
+        if is_self && mon == Monitor::C05 {
+            let post = node.chitchat.node_state(&member).map(copy_view);
+            if let (Some(a), Some(b)) = (&pre_self, &post) {
+                if a.entries != b.entries || a.gc != b.gc || a.max != b.max {
+                    return Err(fail(mon, "own-namespace-changed-by-catch-up", format!("a catch-up fed with peer n{p}'s honest copy of n{n}'s own namespace changed it: ({},{}) {} entries -> ({},{}) {} entries", a.gc, a.max, a.entries.len(), b.gc, b.max, b.entries.len())).into());
+                }
+            }
+        }
+        if !pre_known && node.chitchat.node_state(&member).is_some() {
+            self.fresh_since_creation.insert((n, member.clone()), (0, 0));
+            if self.removed_hb.contains_key(&(n, member.clone())) && mon == Monitor::C12 {
+                return Err(fail(mon, "revived-by-catch-up", format!("n{n} recreated removed member {:?} through the catch-up entry point", member)).into());
+            }
+        }
+        // KF-1 provenance: entries copied verbatim from a tainted entry of the peer stay tainted.
+        if let Some(ns) = node.chitchat.node_state(&member) {
+            for (k, v) in peer_taints {
+                if ns.get_versioned(&k).map(|vv| vv.version == v).unwrap_or(false) {
+                    self.taints.insert((n, wid.clone(), k, v));
+                }
+            }
+        }
+        let stale: Vec<_> = self
+            .taints
+            .iter()
+            .filter(|(s, w, key, version)| *s == n && *w == wid && node.chitchat.node_state(&member).and_then(|ns| ns.get_versioned(key)).map(|vv| vv.version != *version).unwrap_or(true))
+            .cloned()
+            .collect();
+        for t in stale {
+            self.taints.remove(&t);
+        }
+        self.check_copies(n, None)?;
+        self.check_membership_basic(n)?;
         Ok(())
     }
 
@@ -1343,7 +1427,14 @@ impl<'a> World<'a> {
         let (Some(na), Some(nb)) = (self.nodes[a].as_ref(), self.nodes[b].as_ref()) else { return out };
         for (x, nx, y, ny) in [(a, na, b, nb), (b, nb, a, na)] {
             let _ = y;
+            // Members the holder has scheduled for deletion are (rightly) not sent.
+            // ... and a member the lagging node has scheduled for deletion is missing from its
+            // digest, so the holder answers from version 0 (which cannot convey a bare max version).
+            let holder_scheduled: BTreeSet<&ChitchatId> = ny.chitchat.scheduled_for_deletion_nodes().chain(nx.chitchat.scheduled_for_deletion_nodes()).collect();
             for (id, ns_other) in ny.chitchat.node_states() {
+                if holder_scheduled.contains(id) {
+                    continue;
+                }
                 if let Some(ns_mine) = nx.chitchat.node_state(id) {
                     if ns_other.max_version() > ns_mine.max_version() {
                         out.push((x, id.clone()));
@@ -1356,6 +1447,12 @@ impl<'a> World<'a> {
 
     fn progress_checkable(&self, a: usize, b: usize) -> bool {
         let (Some(na), Some(nb)) = (self.nodes[a].as_ref(), self.nodes[b].as_ref()) else { return false };
+        // When everything either node holds fits a datagram several times over, the size budget
+        // cannot be spent on members the other side ignores: every owed member is sent in full.
+        let total = |n: &SimNode| -> usize { n.chitchat.node_states().iter().map(|(id, ns)| 64 + id.node_id.len() + ns.key_values_including_deleted().map(|(k, vv)| 32 + k.len() + vv.value.len()).sum::<usize>()).sum() };
+        if total(na) < 16_000 && total(nb) < 16_000 {
+            return true;
+        }
         if na.chitchat.scheduled_for_deletion_nodes().next().is_some() || nb.chitchat.scheduled_for_deletion_nodes().next().is_some() {
             return false;
         }
@@ -1403,7 +1500,7 @@ impl<'a> World<'a> {
             self.check_copies(s, None)?;
         }
         let f = &self.flags;
-        let labels: [(&str, bool); 17] = [
+        let labels: [(&str, bool); 18] = [
             ("reset", f.reset),
             ("truncated", f.truncated),
             ("midreset_copy", f.midreset_copy),
@@ -1421,6 +1518,7 @@ impl<'a> World<'a> {
             ("cross_cluster_syn", f.cross_cluster_syn),
             ("multi_reset_message", f.multi_reset_message),
             ("narrow_no_reset", f.narrow_no_reset),
+            ("catch_up", f.catch_up),
         ];
         for (l, on) in labels {
             if on {
@@ -1554,6 +1652,14 @@ pub enum Profile {
     /// Large values (20-45 KB, each fitting a datagram alone) together with deletes, grace-period
     /// clock advances and key GC: truncation, resets and collected tombstones in one history.
     TruncGc,
+    /// Focused macro-level histories: slot 0 is the main writer, few nodes, large values, owner GC
+    /// cycles, held SYN-ACKs, fresh joiners, external catch-ups; built to reach deep coincidences
+    /// (mid-reset copies meeting delayed replies or stale peers) far more often than uniform ops.
+    Deep,
+    /// Phased deep histories (see `phased_ops_strategy`).
+    Phased,
+    /// Phased membership histories (see `membership_phased_ops_strategy`).
+    MemberPhased,
 }
 
 fn val_small() -> impl Strategy<Value = Val> {
@@ -1576,12 +1682,161 @@ fn adv(profile: Profile) -> BoxedStrategy<Adv> {
     let small = prop_oneof![3 => (1u32..2000).prop_map(Adv::Ms), 2 => (1u32..30).prop_map(Adv::Secs)];
     match profile {
         Profile::Gc | Profile::TruncGc => prop_oneof![3 => small, 5 => (-1i8..=1).prop_map(Adv::KvGrace)].boxed(),
-        Profile::Membership => prop_oneof![4 => small, 2 => (-2i8..=2).prop_map(Adv::HalfDeadGrace), 2 => (-2i8..=2).prop_map(Adv::DeadGrace), 2 => (-2i8..=2).prop_map(Adv::PhiDeadline), 1 => (-1i8..=1).prop_map(Adv::KvGrace)].boxed(),
+        Profile::Deep | Profile::Phased => prop_oneof![1 => small, 6 => (0i8..=1).prop_map(Adv::KvGrace)].boxed(),
+        Profile::Membership | Profile::MemberPhased => prop_oneof![4 => small, 2 => (-2i8..=2).prop_map(Adv::HalfDeadGrace), 2 => (-2i8..=2).prop_map(Adv::DeadGrace), 2 => (-2i8..=2).prop_map(Adv::PhiDeadline), 1 => (-1i8..=1).prop_map(Adv::KvGrace)].boxed(),
         _ => prop_oneof![8 => small, 1 => (-1i8..=1).prop_map(Adv::KvGrace), 1 => (-2i8..=2).prop_map(Adv::PhiDeadline), 1 => (-2i8..=2).prop_map(Adv::HalfDeadGrace)].boxed(),
     }
 }
 
+/// Selector that lands on slot `i` of a 4-slot world (monotone index mapping).
+fn slot_sel(i: u16) -> u16 {
+    i * 16_384 + 100
+}
+
+fn deep_op_strategy() -> BoxedStrategy<Op> {
+    let any_slot = (0u16..4).prop_map(slot_sel);
+    let peer_slot = (1u16..4).prop_map(slot_sel);
+    let key = prop_oneof![Just(1u8), Just(2u8), Just(4u8), Just(5u8)];
+    prop_oneof![
+        7 => (key.clone(), val_huge()).prop_map(|(key, val)| Op::Write { node: slot_sel(0), kind: WKind::Set, key, val }),
+        5 => (key.clone(), val_small()).prop_map(|(key, val)| Op::Write { node: slot_sel(0), kind: WKind::Set, key, val }),
+        7 => (key.clone(), prop_oneof![Just(WKind::Delete), Just(WKind::DeleteTtl), Just(WKind::SetTtl)], val_small()).prop_map(|(key, kind, val)| Op::Write { node: slot_sel(0), kind, key, val }),
+        2 => (peer_slot.clone(), wkind(), key.clone(), val_small()).prop_map(|(node, kind, key, val)| Op::Write { node, kind, key, val }),
+        6 => (0i8..=1).prop_map(|k| Op::Advance(Adv::KvGrace(k))),
+        8 => any_slot.clone().prop_map(Op::GcKeys),
+        20 => (any_slot.clone(), any_slot.clone()).prop_map(|(a, b)| Op::Handshake { a, b }),
+        9 => (any_slot.clone(), any_slot.clone()).prop_map(|(a, b)| Op::SynHold { a, b }),
+        8 => any::<u16>().prop_map(Op::Deliver),
+        3 => any::<u16>().prop_map(Op::Duplicate),
+        2 => any::<u16>().prop_map(Op::Drop),
+        5 => (any_slot.clone(), any_slot.clone(), prop_oneof![3 => Just(0u16), 1 => any::<u16>()]).prop_map(|(node, peer, member)| Op::CatchUp { node, peer, member }),
+        2 => any::<u16>().prop_map(Op::Join),
+        1 => (any_slot.clone(), any_slot).prop_map(|(a, b)| Op::Cut { a, b }),
+    ]
+    .boxed()
+}
+
+/// Phased histories: build state on slot 0, spread it unevenly, mutate, spread again, let the
+/// grace period pass and collect on a subset of nodes, hold some replies, reset / catch up the
+/// lagging node, deliver the held replies late, finish with random handshakes. Every count, subset
+/// and choice is generated; each phase is followed by optional noise from the deep op mix.
+fn phased_ops_strategy() -> BoxedStrategy<Vec<Op>> {
+    let key = || prop_oneof![Just(1u8), Just(2u8), Just(3u8), Just(4u8), Just(5u8)];
+    let owner_write = move || {
+        prop_oneof![
+            6 => (key(), val_huge()).prop_map(|(key, val)| Op::Write { node: slot_sel(0), kind: WKind::Set, key, val }),
+            3 => (key(), val_small()).prop_map(|(key, val)| Op::Write { node: slot_sel(0), kind: WKind::Set, key, val }),
+            1 => (key(), val_small()).prop_map(|(key, val)| Op::Write { node: slot_sel(0), kind: WKind::SetTtl, key, val }),
+        ]
+    };
+    let owner_delete = move || (key(), prop_oneof![2 => Just(WKind::Delete), 1 => Just(WKind::DeleteTtl)]).prop_map(|(key, kind)| Op::Write { node: slot_sel(0), kind, key, val: Val::tiny(0) });
+    // handshakes of each follower with the owner: counts per follower (slots 1..3), either direction
+    let spread = || {
+        proptest::collection::vec((1u16..4, any::<bool>()), 0..10).prop_map(|v| {
+            v.into_iter().map(|(f, dir)| if dir { Op::Handshake { a: slot_sel(f), b: slot_sel(0) } } else { Op::Handshake { a: slot_sel(0), b: slot_sel(f) } }).collect::<Vec<Op>>()
+        })
+    };
+    let gc_phase = (0i8..=1, proptest::collection::vec(0u16..4, 0..4)).prop_map(|(k, nodes)| {
+        let mut v = vec![Op::Advance(Adv::KvGrace(k))];
+        v.extend(nodes.into_iter().map(|n| Op::GcKeys(slot_sel(n))));
+        v
+    });
+    let holds = proptest::collection::vec((1u16..4, 0u16..4), 0..3).prop_map(|v| v.into_iter().map(|(a, b)| Op::SynHold { a: slot_sel(a), b: slot_sel(b) }).collect::<Vec<Op>>());
+    let resets = proptest::collection::vec(
+        prop_oneof![
+            4 => (1u16..4, 1u16..4).prop_map(|(a, b)| Op::Handshake { a: slot_sel(a), b: slot_sel(b) }),
+            2 => (1u16..4, 0u16..1).prop_map(|(a, b)| Op::Handshake { a: slot_sel(a), b: slot_sel(b) }),
+            1 => (1u16..4, 0u16..4).prop_map(|(node, peer)| Op::CatchUp { node: slot_sel(node), peer: slot_sel(peer), member: 0 }),
+        ],
+        1..4,
+    );
+    let late = proptest::collection::vec(prop_oneof![4 => any::<u16>().prop_map(Op::Deliver), 1 => any::<u16>().prop_map(Op::Duplicate)], 0..4);
+    let noise = || proptest::collection::vec(deep_op_strategy(), 0..2);
+    (
+        (proptest::collection::vec(owner_write(), 2..7), proptest::collection::vec(owner_delete(), 0..3), noise()),
+        (spread(), noise()),
+        (proptest::collection::vec(prop_oneof![2 => owner_write().boxed(), 2 => owner_delete().boxed()], 0..4), spread(), noise()),
+        (gc_phase, holds, noise()),
+        (resets, late, proptest::collection::vec(deep_op_strategy(), 0..5)),
+        prop_oneof![
+            1 => Just(Vec::<Op>::new()),
+            1 => proptest::collection::vec(0u16..4, 1..4).prop_map(|nodes| {
+                let mut v = vec![Op::Advance(Adv::KvGrace(1))];
+                v.extend(nodes.into_iter().map(|n| Op::GcKeys(slot_sel(n))));
+                v
+            }),
+        ],
+    )
+        .prop_map(|((w, d, n1), (s1, n2), (m, s2, n3), (g, h, n4), (r, l, fin), gc2)| {
+            let mut ops = Vec::new();
+            for part in [w, d, n1, s1, n2, m, s2, n3, g, h, n4, r, l, fin, gc2] {
+                ops.extend(part);
+            }
+            ops
+        })
+        .boxed()
+}
+
+/// Phased membership histories on 4 slots: everybody gossips for a while (so that members become
+/// live), one or two nodes crash (or are cut off), survivors evaluate liveness at skewed times
+/// around grace/2 and grace (some detect the death early, some late, some never), survivors keep
+/// writing and gossiping (relaying the dead member with equal / lower heartbeats), some nodes
+/// join late or restart under a new generation.
+fn membership_phased_ops_strategy() -> BoxedStrategy<Vec<Op>> {
+    let any_slot = || (0u16..4).prop_map(slot_sel);
+    let warmup = proptest::collection::vec(
+        prop_oneof![
+            5 => (any_slot(), any::<u8>()).prop_map(|(node, mask)| Op::Round { node, mask: mask | 0x0F }),
+            2 => (1u32..3).prop_map(|s| Op::Advance(Adv::Secs(s))),
+            2 => any::<u16>().prop_map(Op::Deliver),
+            2 => (any_slot(), wkind(), 0u8..7, val_small()).prop_map(|(node, kind, key, val)| Op::Write { node, kind, key, val }),
+        ],
+        6..30,
+    );
+    let crash = proptest::collection::vec(prop_oneof![3 => any_slot().prop_map(Op::Crash), 1 => (any_slot(), any_slot()).prop_map(|(a, b)| Op::Cut { a, b })], 1..3);
+    let skew = || {
+        proptest::collection::vec(
+            prop_oneof![
+                5 => any_slot().prop_map(Op::Liveness),
+                2 => (-2i8..=2).prop_map(|k| Op::Advance(Adv::HalfDeadGrace(k))),
+                2 => (-2i8..=2).prop_map(|k| Op::Advance(Adv::DeadGrace(k))),
+                1 => (-2i8..=2).prop_map(|k| Op::Advance(Adv::PhiDeadline(k))),
+                2 => (any_slot(), any_slot()).prop_map(|(a, b)| Op::Handshake { a, b }),
+                2 => (any_slot(), wkind(), 0u8..7, val_small()).prop_map(|(node, kind, key, val)| Op::Write { node, kind, key, val }),
+                1 => (any_slot(), any_slot()).prop_map(|(a, b)| Op::SynHold { a, b }),
+                1 => any::<u16>().prop_map(Op::Deliver),
+                1 => any::<u16>().prop_map(Op::Duplicate),
+                1 => any_slot().prop_map(Op::Heartbeat),
+            ],
+            3..16,
+        )
+    };
+    let comeback = proptest::collection::vec(
+        prop_oneof![
+            2 => any::<u16>().prop_map(Op::Restart),
+            2 => any::<u16>().prop_map(Op::Join),
+            2 => (any_slot(), any_slot()).prop_map(|(a, b)| Op::Heal { a, b }),
+            3 => (any_slot(), any::<u8>()).prop_map(|(node, mask)| Op::Round { node, mask }),
+            2 => (any_slot(), any_slot(), any::<u16>()).prop_map(|(node, peer, member)| Op::CatchUp { node, peer, member }),
+        ],
+        0..6,
+    );
+    (warmup, crash, skew(), comeback, skew())
+        .prop_map(|(a, b, c, d, e)| {
+            let mut ops = Vec::new();
+            for part in [a, b, c, d, e] {
+                ops.extend(part);
+            }
+            ops
+        })
+        .boxed()
+}
+
 fn op_strategy(profile: Profile) -> BoxedStrategy<Op> {
+    if matches!(profile, Profile::Deep | Profile::Phased) {
+        return deep_op_strategy();
+    }
+    let profile = if profile == Profile::MemberPhased { Profile::Membership } else { profile };
     let n = any::<u16>();
     let val: BoxedStrategy<Val> = match profile {
         Profile::Truncation => prop_oneof![1 => val_small(), 3 => val_large()].boxed(),
@@ -1613,6 +1868,7 @@ fn op_strategy(profile: Profile) -> BoxedStrategy<Op> {
         Profile::Membership => [10, 14, 6, 3, 14, 8, 12, 2, 3, 3, 3, 2, 5, 3, 10, 2],
         Profile::TwoClusters => [12, 4, 3, 2, 6, 22, 22, 4, 8, 1, 1, 2, 0, 0, 8, 5],
         Profile::TruncGc => [28, 9, 1, 9, 1, 5, 14, 2, 3, 1, 1, 2, 0, 0, 2, 24],
+        Profile::Deep | Profile::Phased | Profile::MemberPhased => unreachable!(),
     };
     let all = [write, advance, hb, gc, live, syn, deliver, drop, dup, cut, heal, join, crash, restart, round, handshake];
     let options: Vec<(u32, BoxedStrategy<Op>)> = w.iter().zip(all).filter(|(w, _)| **w > 0).map(|(w, s)| (*w, s)).collect();
@@ -1622,6 +1878,7 @@ fn op_strategy(profile: Profile) -> BoxedStrategy<Op> {
 fn fd_strategy(profile: Profile) -> BoxedStrategy<FdCfg> {
     let grace = match profile {
         Profile::Membership => prop_oneof![4 => Just(20_000u64), 1 => Just(3_600_000u64)].boxed(),
+        Profile::MemberPhased => prop_oneof![3 => Just(20_000u64), 2 => Just(3_600_000u64)].boxed(),
         _ => prop_oneof![1 => Just(20_000u64), 2 => Just(3_600_000u64), 3 => Just(86_400_000u64)].boxed(),
     };
     (prop_oneof![Just(4.0f64), Just(8.0f64)], prop_oneof![Just(10usize), Just(1000usize)], prop_oneof![Just(1000u64), Just(5000u64)], grace)
@@ -1631,7 +1888,7 @@ fn fd_strategy(profile: Profile) -> BoxedStrategy<FdCfg> {
 
 fn cfg_strategy(profile: Profile, mon: Monitor) -> BoxedStrategy<SimCfg> {
     let kv_grace = match profile {
-        Profile::Gc | Profile::TruncGc => prop_oneof![3 => Just(2_000u64), 1 => Just(10_000u64)].boxed(),
+        Profile::Gc | Profile::TruncGc | Profile::Deep | Profile::Phased => prop_oneof![3 => Just(2_000u64), 1 => Just(10_000u64)].boxed(),
         _ => prop_oneof![1 => Just(0u64), 2 => Just(2_000u64), 2 => Just(10_000u64), 3 => Just(3_600_000u64)].boxed(),
     };
     let predicate = if mon == Monitor::C13 { (0u8..4).boxed() } else { prop_oneof![4 => Just(0u8), 1 => 1u8..4].boxed() };
@@ -1641,6 +1898,7 @@ fn cfg_strategy(profile: Profile, mon: Monitor) -> BoxedStrategy<SimCfg> {
         .prop_map(move |(slots, initial, kv_grace_ms, fd, predicate, shuffle_seed, clusters, id0, id1)| {
             let cluster_of = if two { clusters } else { [0; 5] };
             let id1 = if id1 == id0 { format!("{id0}x") } else { id1.to_string() };
+            let (slots, initial) = if profile == Profile::MemberPhased { (4, 3.max(initial.min(4))) } else if matches!(profile, Profile::Deep | Profile::Phased) { (4, if profile == Profile::Phased { 4 } else { 3.max(initial.min(4)) }) } else { (slots, initial) };
             SimCfg {
                 slots,
                 initial: initial.min(slots).max(if two { slots } else { 1 }),
@@ -1662,10 +1920,10 @@ fn fair_strategy() -> impl Strategy<Value = FairCfg> {
 
 pub fn profiles_for(mon: Monitor) -> Vec<(u32, Profile)> {
     match mon {
-        Monitor::C12 | Monitor::C13 => vec![(5, Profile::Membership), (1, Profile::Gc), (1, Profile::Partition)],
+        Monitor::C12 | Monitor::C13 => vec![(4, Profile::Membership), (4, Profile::MemberPhased), (1, Profile::Gc), (1, Profile::Partition)],
         Monitor::C16 => vec![(1, Profile::TwoClusters)],
-        Monitor::C01 => vec![(3, Profile::Small), (2, Profile::Truncation), (3, Profile::Gc), (2, Profile::Partition), (3, Profile::TruncGc)],
-        _ => vec![(3, Profile::Small), (2, Profile::Truncation), (4, Profile::Gc), (2, Profile::Partition), (1, Profile::Membership), (2, Profile::TruncGc)],
+        Monitor::C01 => vec![(3, Profile::Small), (2, Profile::Truncation), (3, Profile::Gc), (2, Profile::Partition), (3, Profile::TruncGc), (3, Profile::Deep), (3, Profile::Phased), (2, Profile::Membership), (4, Profile::MemberPhased)],
+        _ => vec![(3, Profile::Small), (2, Profile::Truncation), (4, Profile::Gc), (2, Profile::Partition), (1, Profile::Membership), (2, Profile::TruncGc), (4, Profile::Deep), (5, Profile::Phased), (2, Profile::MemberPhased)],
     }
 }
 
@@ -1673,8 +1931,8 @@ pub fn case_strategy(mon: Monitor, max_ops: usize) -> BoxedStrategy<SimCase> {
     let options: Vec<(u32, BoxedStrategy<SimCase>)> = profiles_for(mon)
         .into_iter()
         .map(|(w, profile)| {
-            let len = if matches!(profile, Profile::Truncation | Profile::TruncGc) { max_ops / 2 } else { max_ops };
-            let ops = proptest::collection::vec(op_strategy(profile), 3..=len.max(4));
+            let len = if matches!(profile, Profile::Truncation | Profile::TruncGc | Profile::Deep) { max_ops / 2 } else { max_ops };
+            let ops: BoxedStrategy<Vec<Op>> = if profile == Profile::Phased { phased_ops_strategy() } else if profile == Profile::MemberPhased { membership_phased_ops_strategy() } else { proptest::collection::vec(op_strategy(profile), 3..=len.max(4)).boxed() };
             let s: BoxedStrategy<SimCase> = if mon == Monitor::C01 {
                 (cfg_strategy(profile, mon), ops, fair_strategy()).prop_map(|(cfg, ops, fair)| SimCase { cfg, ops, fair: Some(fair) }).boxed()
             } else {
